@@ -21,13 +21,15 @@ import Mathlib.Tactic.FinCases
 import Mathlib.Tactic.LinearCombination
 import Mathlib.Algebra.Order.Field.Basic
 import Mathlib.Analysis.SpecialFunctions.Pow.Real
-import Mathlib.Analysis.SpecialFunctions.Trigonometric.Basic
+import Mathlib.Analysis.SpecialFunctions.Trigonometric.Inverse
+import Mathlib.Analysis.SpecialFunctions.Trigonometric.Arctan
 
 set_option linter.unusedSectionVars false
 set_option linter.unusedVariables false
 set_option linter.unusedSimpArgs false
 set_option linter.unusedTactic false
 set_option linter.unreachableTactic false
+set_option linter.unnecessarySeqFocus false
 
 namespace KawinV.Props.C16
 open KawinV KawinV.Gen.C16 KawinV.Elastic
@@ -256,10 +258,10 @@ theorem mOf_ne (hE : E ≠ 0) (h3 : 1 - ν ≠ 0) (h1 : 1 + ν ≠ 0) (h2 : 1 - 
 /-- `field_simp` writes 1 - 2ν as 1 - ν·2 -/
 theorem ne_comm2 (h2 : 1 - 2 * ν ≠ 0) : 1 - ν * 2 ≠ 0 := by rwa [mul_comm] at h2
 
-/-- closes one entry of `IsCompliance`: clear the denominators that are moduli (atoms), then unfold the
-moduli and clear the rest -/
+/-- closes one entry of `IsCompliance` once the compound denominators have been rewritten to their
+closed forms: unfold the moduli, clear denominators, normalise -/
 macro "moduli_close" : tactic => `(tactic|
-  ((try field_simp) <;> (try simp only [gOf, lamOf, kOf, mOf]) <;> (try field_simp) <;> (try ring)))
+  ((try simp only [gOf, lamOf, kOf, mOf]) <;> (try field_simp) <;> (try ring)))
 
 theorem moduli_E_nu_spec (hE : E ≠ 0) (h1 : 1 + ν ≠ 0) :
     IsCompliance E ν (moduli_E_nu_s11 E ν) (moduli_E_nu_s12 E ν) (moduli_E_nu_s44 E ν) := by
@@ -267,123 +269,685 @@ theorem moduli_E_nu_spec (hE : E ≠ 0) (h1 : 1 + ν ≠ 0) :
 
 theorem moduli_E_G_spec (hE : E ≠ 0) (h1 : 1 + ν ≠ 0) :
     IsCompliance E ν (moduli_E_G_s11 E (gOf E ν)) (moduli_E_G_s12 E (gOf E ν)) (moduli_E_G_s44 E (gOf E ν)) := by
-  have hG := gOf_ne hE h1
   refine ⟨?_, ?_, ?_⟩ <;> simp only [moduli_E_G_s11, moduli_E_G_s12, moduli_E_G_s44, npow] <;> moduli_close
 
 theorem moduli_E_K_spec (hE : E ≠ 0) (h1 : 1 + ν ≠ 0) (h2 : 1 - 2 * ν ≠ 0) :
     IsCompliance E ν (moduli_E_K_s11 E (kOf E ν)) (moduli_E_K_s12 E (kOf E ν)) (moduli_E_K_s44 E (kOf E ν)) := by
   have h2' := ne_comm2 h2
-  have hG := gOf_ne hE h1
-  have hK := kOf_ne hE h2
-  have hd : 9 * kOf E ν - E ≠ 0 := by
-    have : 9 * kOf E ν - E = 2 * E * (1 + ν) / (1 - 2 * ν) := by unfold kOf; field_simp; ring
-    rw [this]; exact div_ne_zero (mul_ne_zero (mul_ne_zero two_ne_zero hE) h1) h2
-  refine ⟨?_, ?_, ?_⟩ <;> simp only [moduli_E_K_s11, moduli_E_K_s12, moduli_E_K_s44, npow] <;> moduli_close
+  have e0 : 9 * kOf E ν - E = 2 * E * (1 + ν) / (1 - 2 * ν) := by
+    simp only [gOf, lamOf, kOf, mOf]; field_simp; ring
+  refine ⟨?_, ?_, ?_⟩ <;> simp only [moduli_E_K_s11, moduli_E_K_s12, moduli_E_K_s44, npow, e0] <;> moduli_close
 
 theorem moduli_nu_G_spec (hE : E ≠ 0) (h1 : 1 + ν ≠ 0) :
     IsCompliance E ν (moduli_nu_G_s11 ν (gOf E ν)) (moduli_nu_G_s12 ν (gOf E ν)) (moduli_nu_G_s44 ν (gOf E ν)) := by
-  have hG := gOf_ne hE h1
   refine ⟨?_, ?_, ?_⟩ <;> simp only [moduli_nu_G_s11, moduli_nu_G_s12, moduli_nu_G_s44, npow] <;> moduli_close
 
 theorem moduli_nu_lam_spec (hE : E ≠ 0) (hν : ν ≠ 0) (h1 : 1 + ν ≠ 0) (h2 : 1 - 2 * ν ≠ 0) :
     IsCompliance E ν (moduli_nu_lam_s11 ν (lamOf E ν)) (moduli_nu_lam_s12 ν (lamOf E ν)) (moduli_nu_lam_s44 ν (lamOf E ν)) := by
   have h2' := ne_comm2 h2
-  have hG := gOf_ne hE h1
-  have hL := lamOf_ne hE hν h1 h2
   refine ⟨?_, ?_, ?_⟩ <;> simp only [moduli_nu_lam_s11, moduli_nu_lam_s12, moduli_nu_lam_s44, npow] <;> moduli_close
 
 theorem moduli_nu_K_spec (hE : E ≠ 0) (h1 : 1 + ν ≠ 0) (h2 : 1 - 2 * ν ≠ 0) :
     IsCompliance E ν (moduli_nu_K_s11 ν (kOf E ν)) (moduli_nu_K_s12 ν (kOf E ν)) (moduli_nu_K_s44 ν (kOf E ν)) := by
   have h2' := ne_comm2 h2
-  have hG := gOf_ne hE h1
-  have hK := kOf_ne hE h2
   refine ⟨?_, ?_, ?_⟩ <;> simp only [moduli_nu_K_s11, moduli_nu_K_s12, moduli_nu_K_s44, npow] <;> moduli_close
 
 theorem moduli_nu_M_spec (hE : E ≠ 0) (h3 : 1 - ν ≠ 0) (h1 : 1 + ν ≠ 0) (h2 : 1 - 2 * ν ≠ 0) :
     IsCompliance E ν (moduli_nu_M_s11 ν (mOf E ν)) (moduli_nu_M_s12 ν (mOf E ν)) (moduli_nu_M_s44 ν (mOf E ν)) := by
   have h2' := ne_comm2 h2
-  have hG := gOf_ne hE h1
-  have hM := mOf_ne hE h3 h1 h2
   refine ⟨?_, ?_, ?_⟩ <;> simp only [moduli_nu_M_s11, moduli_nu_M_s12, moduli_nu_M_s44, npow] <;> moduli_close
 
 theorem moduli_G_lam_spec (hE : E ≠ 0) (h1 : 1 + ν ≠ 0) (h2 : 1 - 2 * ν ≠ 0) :
     IsCompliance E ν (moduli_G_lam_s11 (gOf E ν) (lamOf E ν)) (moduli_G_lam_s12 (gOf E ν) (lamOf E ν)) (moduli_G_lam_s44 (gOf E ν) (lamOf E ν)) := by
   have h2' := ne_comm2 h2
-  have hG := gOf_ne hE h1
-  have hd : lamOf E ν + gOf E ν ≠ 0 := by
-    have : lamOf E ν + gOf E ν = E / (2 * (1 + ν) * (1 - 2 * ν)) := by unfold lamOf gOf; field_simp; ring
-    rw [this]; exact div_ne_zero hE (mul_ne_zero (mul_ne_zero two_ne_zero h1) h2)
-  have hn : 3 * lamOf E ν + 2 * gOf E ν ≠ 0 := by
-    have : 3 * lamOf E ν + 2 * gOf E ν = E / (1 - 2 * ν) := by unfold lamOf gOf; field_simp; ring
-    rw [this]; exact div_ne_zero hE h2
-  refine ⟨?_, ?_, ?_⟩ <;> simp only [moduli_G_lam_s11, moduli_G_lam_s12, moduli_G_lam_s44, npow] <;> moduli_close
+  have e0 : lamOf E ν + gOf E ν = E / (2 * (1 + ν) * (1 - 2 * ν)) := by
+    simp only [gOf, lamOf, kOf, mOf]; field_simp; ring
+  have e1 : 3 * lamOf E ν + 2 * gOf E ν = E / (1 - 2 * ν) := by
+    simp only [gOf, lamOf, kOf, mOf]; field_simp; ring
+  refine ⟨?_, ?_, ?_⟩ <;> simp only [moduli_G_lam_s11, moduli_G_lam_s12, moduli_G_lam_s44, npow, e0, e1] <;> moduli_close
 
 theorem moduli_G_K_spec (hE : E ≠ 0) (h1 : 1 + ν ≠ 0) (h2 : 1 - 2 * ν ≠ 0) :
     IsCompliance E ν (moduli_G_K_s11 (gOf E ν) (kOf E ν)) (moduli_G_K_s12 (gOf E ν) (kOf E ν)) (moduli_G_K_s44 (gOf E ν) (kOf E ν)) := by
   have h2' := ne_comm2 h2
-  have hG := gOf_ne hE h1
-  have hK := kOf_ne hE h2
-  have hd : 3 * kOf E ν + gOf E ν ≠ 0 := by
-    have : 3 * kOf E ν + gOf E ν = 3 * E / (2 * (1 + ν) * (1 - 2 * ν)) := by unfold kOf gOf; field_simp; ring
-    rw [this]; exact div_ne_zero (mul_ne_zero three_ne_zero hE) (mul_ne_zero (mul_ne_zero two_ne_zero h1) h2)
-  refine ⟨?_, ?_, ?_⟩ <;> simp only [moduli_G_K_s11, moduli_G_K_s12, moduli_G_K_s44, npow] <;> moduli_close
+  have e0 : 3 * kOf E ν + gOf E ν = 3 * E / (2 * (1 + ν) * (1 - 2 * ν)) := by
+    simp only [gOf, lamOf, kOf, mOf]; field_simp; ring
+  refine ⟨?_, ?_, ?_⟩ <;> simp only [moduli_G_K_s11, moduli_G_K_s12, moduli_G_K_s44, npow, e0] <;> moduli_close
 
 theorem moduli_G_M_spec (hE : E ≠ 0) (h1 : 1 + ν ≠ 0) (h2 : 1 - 2 * ν ≠ 0) :
     IsCompliance E ν (moduli_G_M_s11 (gOf E ν) (mOf E ν)) (moduli_G_M_s12 (gOf E ν) (mOf E ν)) (moduli_G_M_s44 (gOf E ν) (mOf E ν)) := by
   have h2' := ne_comm2 h2
-  have hG := gOf_ne hE h1
-  have hd : mOf E ν - gOf E ν ≠ 0 := by
-    have : mOf E ν - gOf E ν = E / (2 * (1 + ν) * (1 - 2 * ν)) := by unfold mOf gOf; field_simp; ring
-    rw [this]; exact div_ne_zero hE (mul_ne_zero (mul_ne_zero two_ne_zero h1) h2)
-  have hd2 : 2 * mOf E ν - 2 * gOf E ν ≠ 0 := by
-    have : 2 * mOf E ν - 2 * gOf E ν = 2 * (mOf E ν - gOf E ν) := by ring
-    rw [this]; exact mul_ne_zero two_ne_zero hd
-  have hn : 3 * mOf E ν - 4 * gOf E ν ≠ 0 := by
-    have : 3 * mOf E ν - 4 * gOf E ν = E / (1 - 2 * ν) := by unfold mOf gOf; field_simp; ring
-    rw [this]; exact div_ne_zero hE h2
-  refine ⟨?_, ?_, ?_⟩ <;> simp only [moduli_G_M_s11, moduli_G_M_s12, moduli_G_M_s44, npow] <;> moduli_close
+  have e0 : mOf E ν - gOf E ν = E / (2 * (1 + ν) * (1 - 2 * ν)) := by
+    simp only [gOf, lamOf, kOf, mOf]; field_simp; ring
+  have e1 : 2 * mOf E ν - 2 * gOf E ν = E / ((1 + ν) * (1 - 2 * ν)) := by
+    simp only [gOf, lamOf, kOf, mOf]; field_simp; ring
+  have e2 : 3 * mOf E ν - 4 * gOf E ν = E / (1 - 2 * ν) := by
+    simp only [gOf, lamOf, kOf, mOf]; field_simp; ring
+  refine ⟨?_, ?_, ?_⟩ <;> simp only [moduli_G_M_s11, moduli_G_M_s12, moduli_G_M_s44, npow, e0, e1, e2] <;> moduli_close
 
 theorem moduli_lam_K_spec (hE : E ≠ 0) (h1 : 1 + ν ≠ 0) (h2 : 1 - 2 * ν ≠ 0) :
     IsCompliance E ν (moduli_lam_K_s11 (lamOf E ν) (kOf E ν)) (moduli_lam_K_s12 (lamOf E ν) (kOf E ν)) (moduli_lam_K_s44 (lamOf E ν) (kOf E ν)) := by
   have h2' := ne_comm2 h2
-  have hG := gOf_ne hE h1
-  have hK := kOf_ne hE h2
-  have hd : 3 * kOf E ν - lamOf E ν ≠ 0 := by
-    have : 3 * kOf E ν - lamOf E ν = E / ((1 + ν) * (1 - 2 * ν)) := by unfold kOf lamOf; field_simp; ring
-    rw [this]; exact div_ne_zero hE (mul_ne_zero h1 h2)
-  have hn : kOf E ν - lamOf E ν ≠ 0 := by
-    have : kOf E ν - lamOf E ν = E / (3 * (1 + ν)) := by unfold kOf lamOf; field_simp; ring
-    rw [this]; exact div_ne_zero hE (mul_ne_zero three_ne_zero h1)
-  refine ⟨?_, ?_, ?_⟩ <;> simp only [moduli_lam_K_s11, moduli_lam_K_s12, moduli_lam_K_s44, npow] <;> moduli_close
+  have e0 : 3 * kOf E ν - lamOf E ν = E / ((1 + ν) * (1 - 2 * ν)) := by
+    simp only [gOf, lamOf, kOf, mOf]; field_simp; ring
+  have e1 : kOf E ν - lamOf E ν = E / (3 * (1 + ν)) := by
+    simp only [gOf, lamOf, kOf, mOf]; field_simp; ring
+  refine ⟨?_, ?_, ?_⟩ <;> simp only [moduli_lam_K_s11, moduli_lam_K_s12, moduli_lam_K_s44, npow, e0, e1] <;> moduli_close
 
 theorem moduli_lam_M_spec (hE : E ≠ 0) (h1 : 1 + ν ≠ 0) (h2 : 1 - 2 * ν ≠ 0) :
     IsCompliance E ν (moduli_lam_M_s11 (lamOf E ν) (mOf E ν)) (moduli_lam_M_s12 (lamOf E ν) (mOf E ν)) (moduli_lam_M_s44 (lamOf E ν) (mOf E ν)) := by
   have h2' := ne_comm2 h2
-  have hG := gOf_ne hE h1
-  have hd : mOf E ν + lamOf E ν ≠ 0 := by
-    have : mOf E ν + lamOf E ν = E / ((1 + ν) * (1 - 2 * ν)) := by unfold mOf lamOf; field_simp; ring
-    rw [this]; exact div_ne_zero hE (mul_ne_zero h1 h2)
-  have hn : mOf E ν - lamOf E ν ≠ 0 := by
-    have : mOf E ν - lamOf E ν = E / (1 + ν) := by unfold mOf lamOf; field_simp; ring
-    rw [this]; exact div_ne_zero hE h1
-  have hn2 : mOf E ν + 2 * lamOf E ν ≠ 0 := by
-    have : mOf E ν + 2 * lamOf E ν = E / (1 - 2 * ν) := by unfold mOf lamOf; field_simp; ring
-    rw [this]; exact div_ne_zero hE h2
-  refine ⟨?_, ?_, ?_⟩ <;> simp only [moduli_lam_M_s11, moduli_lam_M_s12, moduli_lam_M_s44, npow] <;> moduli_close
+  have e0 : mOf E ν + lamOf E ν = E / ((1 + ν) * (1 - 2 * ν)) := by
+    simp only [gOf, lamOf, kOf, mOf]; field_simp; ring
+  have e1 : mOf E ν - lamOf E ν = E / (1 + ν) := by
+    simp only [gOf, lamOf, kOf, mOf]; field_simp; ring
+  have e2 : mOf E ν + 2 * lamOf E ν = E / (1 - 2 * ν) := by
+    simp only [gOf, lamOf, kOf, mOf]; field_simp; ring
+  refine ⟨?_, ?_, ?_⟩ <;> simp only [moduli_lam_M_s11, moduli_lam_M_s12, moduli_lam_M_s44, npow, e0, e1, e2] <;> moduli_close
 
 theorem moduli_K_M_spec (hE : E ≠ 0) (h1 : 1 + ν ≠ 0) (h2 : 1 - 2 * ν ≠ 0) :
     IsCompliance E ν (moduli_K_M_s11 (kOf E ν) (mOf E ν)) (moduli_K_M_s12 (kOf E ν) (mOf E ν)) (moduli_K_M_s44 (kOf E ν) (mOf E ν)) := by
   have h2' := ne_comm2 h2
-  have hG := gOf_ne hE h1
-  have hK := kOf_ne hE h2
-  have hd : 3 * kOf E ν + mOf E ν ≠ 0 := by
-    have : 3 * kOf E ν + mOf E ν = 2 * E / ((1 + ν) * (1 - 2 * ν)) := by unfold kOf mOf; field_simp; ring
-    rw [this]; exact div_ne_zero (mul_ne_zero two_ne_zero hE) (mul_ne_zero h1 h2)
-  have hn : mOf E ν - kOf E ν ≠ 0 := by
-    have : mOf E ν - kOf E ν = 2 * E / (3 * (1 + ν)) := by unfold kOf mOf; field_simp; ring
-    rw [this]; exact div_ne_zero (mul_ne_zero two_ne_zero hE) (mul_ne_zero three_ne_zero h1)
-  refine ⟨?_, ?_, ?_⟩ <;> simp only [moduli_K_M_s11, moduli_K_M_s12, moduli_K_M_s44, npow] <;> moduli_close
+  have e0 : 3 * kOf E ν + mOf E ν = 2 * E / ((1 + ν) * (1 - 2 * ν)) := by
+    simp only [gOf, lamOf, kOf, mOf]; field_simp; ring
+  have e1 : mOf E ν - kOf E ν = 2 * E / (3 * (1 + ν)) := by
+    simp only [gOf, lamOf, kOf, mOf]; field_simp; ring
+  refine ⟨?_, ?_, ?_⟩ <;> simp only [moduli_K_M_s11, moduli_K_M_s12, moduli_K_M_s44, npow, e0, e1] <;> moduli_close
 
 end moduli
+
+/-! ## the two branches with a square root (E, λ) and (E, M): the radicand is a perfect square -/
+section moduliSqrt
+variable {α : Type} [Field α] [LinearOrder α] [IsStrictOrderedRing α] [Trans α]
+variable {E ν : α}
+
+/-- **(E, λ)**: E² + 9λ² + 2Eλ = (E(1+2ν²)/((1+ν)(1−2ν)))²; for E > 0 and −1 < ν < 1/2 the root is
+taken with the right sign and the branch returns the compliance of (E, ν) -/
+theorem moduli_E_lam_spec (hsq : ∀ x : α, 0 ≤ x → Trans.sqrt (x * x) = x)
+    (hE : 0 < E) (h1 : 0 < 1 + ν) (h2 : 0 < 1 - 2 * ν) :
+    IsCompliance E ν (moduli_E_lam_s11 E (lamOf E ν)) (moduli_E_lam_s12 E (lamOf E ν))
+      (moduli_E_lam_s44 E (lamOf E ν)) := by
+  have hE' := hE.ne'; have h1' := h1.ne'; have h2' := h2.ne'
+  have h2c := ne_comm2 h2'
+  have hy : 0 ≤ E * (1 + 2 * ν * ν) / ((1 + ν) * (1 - 2 * ν)) :=
+    div_nonneg (mul_nonneg hE.le (by nlinarith [mul_self_nonneg ν])) (mul_pos h1 h2).le
+  have hrad : E * E + 9 * (lamOf E ν * lamOf E ν) + 2 * E * lamOf E ν =
+      (E * (1 + 2 * ν * ν) / ((1 + ν) * (1 - 2 * ν))) * (E * (1 + 2 * ν * ν) / ((1 + ν) * (1 - 2 * ν))) := by
+    simp only [lamOf]; field_simp; ring
+  have e0 : E + lamOf E ν + E * (1 + 2 * ν * ν) / ((1 + ν) * (1 - 2 * ν)) =
+      2 * E / ((1 + ν) * (1 - 2 * ν)) := by simp only [lamOf]; field_simp; ring
+  have e1 : E - 3 * lamOf E ν + E * (1 + 2 * ν * ν) / ((1 + ν) * (1 - 2 * ν)) = 2 * E / (1 + ν) := by
+    simp only [lamOf]; field_simp; ring
+  refine ⟨?_, ?_, ?_⟩ <;>
+    simp only [moduli_E_lam_s11, moduli_E_lam_s12, moduli_E_lam_s44, npow, hrad, hsq _ hy, e0, e1] <;>
+    moduli_close
+
+/-- **(E, M)**: E² + 9M² − 10EM = (2Eν(2−ν)/((1+ν)(1−2ν)))²; for E > 0 and 0 ≤ ν < 1/2 the branch
+returns the compliance of (E, ν) -/
+theorem moduli_E_M_spec (hsq : ∀ x : α, 0 ≤ x → Trans.sqrt (x * x) = x)
+    (hE : 0 < E) (hν : 0 ≤ ν) (h2 : 0 < 1 - 2 * ν) :
+    IsCompliance E ν (moduli_E_M_s11 E (mOf E ν)) (moduli_E_M_s12 E (mOf E ν))
+      (moduli_E_M_s44 E (mOf E ν)) := by
+  have h1 : 0 < 1 + ν := by linarith
+  have h3 : 0 < 1 - ν := by linarith
+  have hE' := hE.ne'; have h1' := h1.ne'; have h2' := h2.ne'; have h3' := h3.ne'
+  have h2c := ne_comm2 h2'
+  have hM := mOf_ne hE' h3' h1' h2'
+  have hy : 0 ≤ 2 * E * ν * (2 - ν) / ((1 + ν) * (1 - 2 * ν)) :=
+    div_nonneg (mul_nonneg (mul_nonneg (mul_nonneg zero_le_two hE.le) hν) (by linarith)) (mul_pos h1 h2).le
+  have hrad : E * E + 9 * (mOf E ν * mOf E ν) - 10 * E * mOf E ν =
+      (2 * E * ν * (2 - ν) / ((1 + ν) * (1 - 2 * ν))) * (2 * E * ν * (2 - ν) / ((1 + ν) * (1 - 2 * ν))) := by
+    simp only [mOf]; field_simp; ring
+  have e0 : 3 * mOf E ν + E - 2 * E * ν * (2 - ν) / ((1 + ν) * (1 - 2 * ν)) = 4 * E / (1 + ν) := by
+    simp only [mOf]; field_simp; ring
+  have e1 : E - mOf E ν + 2 * E * ν * (2 - ν) / ((1 + ν) * (1 - 2 * ν)) =
+      4 * E * ν * (1 - ν) / ((1 + ν) * (1 - 2 * ν)) := by simp only [mOf]; field_simp; ring
+  refine ⟨?_, ?_, ?_⟩ <;>
+    simp only [moduli_E_M_s11, moduli_E_M_s12, moduli_E_M_s44, npow, hrad, hsq _ hy, e0, e1] <;>
+    moduli_close
+
+/-- **(E, M) with a negative Poisson ratio**: (E, M) does not determine ν; the code takes the
+non-negative root, so for −1 < ν < 0 it returns Poisson's ratio −ν/(1−ν) instead of ν
+(s12 = −ν'/E with ν' = −ν/(1−ν)).  The hypothesis `0 ≤ ν` of `moduli_E_M_spec` is needed. -/
+theorem moduli_E_M_negative (hsq : ∀ x : α, 0 ≤ x → Trans.sqrt (x * x) = x)
+    (hE : 0 < E) (hν : ν < 0) (h1 : 0 < 1 + ν) :
+    moduli_E_M_s12 E (mOf E ν) = -(-ν / (1 - ν)) / E := by
+  have h2 : 0 < 1 - 2 * ν := by linarith
+  have h3 : 0 < 1 - ν := by linarith
+  have hE' := hE.ne'; have h1' := h1.ne'; have h2' := h2.ne'; have h3' := h3.ne'
+  have h2c := ne_comm2 h2'
+  have hM := mOf_ne hE' h3' h1' h2'
+  have hy : 0 ≤ 2 * E * (-ν) * (2 - ν) / ((1 + ν) * (1 - 2 * ν)) :=
+    div_nonneg (mul_nonneg (mul_nonneg (mul_nonneg zero_le_two hE.le) (by linarith)) (by linarith))
+      (mul_pos h1 h2).le
+  have hrad : E * E + 9 * (mOf E ν * mOf E ν) - 10 * E * mOf E ν =
+      (2 * E * (-ν) * (2 - ν) / ((1 + ν) * (1 - 2 * ν))) * (2 * E * (-ν) * (2 - ν) / ((1 + ν) * (1 - 2 * ν))) := by
+    simp only [mOf]; field_simp; ring
+  have e1 : E - mOf E ν + 2 * E * (-ν) * (2 - ν) / ((1 + ν) * (1 - 2 * ν)) =
+      -4 * E * ν / ((1 + ν) * (1 - 2 * ν)) := by simp only [mOf]; field_simp; ring
+  simp only [moduli_E_M_s12, npow, hrad, hsq _ hy, e1]
+  moduli_close
+
+theorem moduli_E_M_negative_ne {ν : α} (hν : ν < 0) (h1 : 0 < 1 + ν) : -ν / (1 - ν) ≠ ν := by
+  have h3 : 0 < 1 - ν := by linarith
+  intro h
+  rw [div_eq_iff h3.ne'] at h
+  nlinarith
+
+end moduliSqrt
+
+/-! ## from the compliance to the stiffness -/
+section stiffness
+variable {α : Type} [Field α] [CharZero α] [Trans α]
+
+/-- the closed-form inverse used by the model for `np.linalg.inv(s)`: on the 3x3 block
+[[s11,s12,s12],[s12,s11,s12],[s12,s12,s11]] · [[c11,c12,c12],…] = 1, and c44 · s44 = 1 -/
+theorem isoInverse_spec (s11 s12 s44 : α) (hd1 : s11 - s12 ≠ 0) (hd2 : s11 + 2 * s12 ≠ 0) (h4 : s44 ≠ 0) :
+    let c := isoInverse s11 s12 s44
+    s11 * c.1 + s12 * c.2.1 + s12 * c.2.1 = 1 ∧
+    s12 * c.1 + s11 * c.2.1 + s12 * c.2.1 = 0 ∧
+    s44 * c.2.2 = 1 := by
+  have hd2' : s11 + s12 * 2 ≠ 0 := by rwa [mul_comm] at hd2
+  simp only [isoInverse]
+  refine ⟨?_, ?_, ?_⟩ <;> field_simp <;> ring
+
+/-- the stiffness returned for the compliance of (E, ν): c11 = λ + 2G = M, c12 = λ, c44 = G -/
+theorem isoInverse_compliance {E ν : α} (hE : E ≠ 0) (h1 : 1 + ν ≠ 0) (h2 : 1 - 2 * ν ≠ 0) :
+    isoInverse (1 / E) (-ν / E) (1 / gOf E ν) = (mOf E ν, lamOf E ν, gOf E ν) := by
+  have h2c := ne_comm2 h2
+  have hG := gOf_ne hE h1
+  have e0 : 1 / E - -ν / E = (1 + ν) / E := by field_simp; ring
+  have e1 : 1 / E + 2 * (-ν / E) = (1 - 2 * ν) / E := by field_simp; ring
+  simp only [isoInverse, e0, e1, Prod.mk.injEq]
+  refine ⟨?_, ?_, ?_⟩ <;> moduli_close
+
+theorem mOf_eq (E ν : α) (h1 : 1 + ν ≠ 0) (h2 : 1 - 2 * ν ≠ 0) : mOf E ν = lamOf E ν + 2 * gOf E ν := by
+  have h2c := ne_comm2 h2
+  simp only [mOf, lamOf, gOf]; field_simp; ring
+
+end stiffness
+
+/-! ## Khachaturyan's approximation and the constant description -/
+section khachaturyan
+variable {α : Type} [Field α] [CharZero α] [Trans α]
+
+/-- volume of the ellipsoid as the code writes it -/
+def vol (r0 r1 r2 : α) : α := 4 * Trans.pi / 3 * (r0 * r1 * r2)
+
+/-- **isotropic constants**: with c11 − c12 − 2c44 = 0 both anisotropy terms vanish for ANY shape
+integrals I1, I2 and the energy is 2G(1+ν)/(1−ν) · ε² · V
+(c44 = G, c12 = λ = 2Gν/(1−2ν), c11 = λ + 2G) -/
+theorem khachaturyan_isotropic (G ν ε I1 I2 r0 r1 r2 : α) (hG : G ≠ 0) (h1 : 1 + ν ≠ 0)
+    (h2 : 1 - 2 * ν ≠ 0) (h3 : 1 - ν ≠ 0) :
+    khachaturyan (2 * G * ν / (1 - 2 * ν) + 2 * G) (2 * G * ν / (1 - 2 * ν)) G ε I1 I2 r0 r1 r2 =
+      2 * G * (1 + ν) / (1 - ν) * (ε * ε) * vol r0 r1 r2 := by
+  have h2c := ne_comm2 h2
+  have hc11 : 2 * G * ν / (1 - 2 * ν) + 2 * G = 2 * G * (1 - ν) / (1 - 2 * ν) := by field_simp; ring
+  have hz : 2 * G * (1 - ν) / (1 - 2 * ν) - 2 * G * ν / (1 - 2 * ν) - 2 * G = 0 := by field_simp; ring
+  have hs : 2 * G * (1 - ν) / (1 - 2 * ν) + 2 * (2 * G * ν / (1 - 2 * ν)) = 2 * G * (1 + ν) / (1 - 2 * ν) := by
+    field_simp; ring
+  have hd : 2 * G * (1 - ν) / (1 - 2 * ν) - 2 * G * ν / (1 - 2 * ν) = 2 * G := by field_simp; ring
+  simp only [khachaturyan, npow, vol, hc11, hz, hs, hd, mul_zero, zero_mul, zero_div, sub_zero, add_zero]
+  field_simp
+  ring
+
+theorem khach_sphere_isotropic (G ν ε r0 r1 r2 : α) (hG : G ≠ 0) (h1 : 1 + ν ≠ 0)
+    (h2 : 1 - 2 * ν ≠ 0) (h3 : 1 - ν ≠ 0) :
+    khach_sphere (2 * G * ν / (1 - 2 * ν) + 2 * G) (2 * G * ν / (1 - 2 * ν)) G ε r0 r1 r2 =
+      2 * G * (1 + ν) / (1 - ν) * (ε * ε) * vol r0 r1 r2 :=
+  khachaturyan_isotropic G ν ε _ _ r0 r1 r2 hG h1 h2 h3
+
+theorem khach_cube_isotropic (G ν ε r0 r1 r2 : α) (hG : G ≠ 0) (h1 : 1 + ν ≠ 0)
+    (h2 : 1 - 2 * ν ≠ 0) (h3 : 1 - ν ≠ 0) :
+    khach_cube (2 * G * ν / (1 - 2 * ν) + 2 * G) (2 * G * ν / (1 - 2 * ν)) G ε r0 r1 r2 =
+      2 * G * (1 + ν) / (1 - ν) * (ε * ε) * vol r0 r1 r2 :=
+  khachaturyan_isotropic G ν ε _ _ r0 r1 r2 hG h1 h2 h3
+
+/-- the sphere / cube descriptions are `_Khachaturyan` at their shape integrals -/
+theorem khach_sphere_eq (c11 c12 c44 ε r0 r1 r2 : α) :
+    khach_sphere c11 c12 c44 ε r0 r1 r2 =
+      khachaturyan c11 c12 c44 ε (6666666666666667 / 100000000000000000)
+        (380952380952381 / 40000000000000000) r0 r1 r2 := rfl
+
+/-- size scaling of the closed-form descriptions: E(s·r) = s³ E(r) -/
+theorem khachaturyan_size (c11 c12 c44 ε I1 I2 r0 r1 r2 s : α) :
+    khachaturyan c11 c12 c44 ε I1 I2 (s * r0) (s * r1) (s * r2) =
+      s ^ 3 * khachaturyan c11 c12 c44 ε I1 I2 r0 r1 r2 := by
+  simp only [khachaturyan, npow]; ring
+
+theorem constant_size (e0 r0 r1 r2 s : α) :
+    constant_energy e0 (s * r0) (s * r1) (s * r2) = s ^ 3 * constant_energy e0 r0 r1 r2 := by
+  simp only [constant_energy]; ring
+
+/-- eigenstrain scaling: E(c·ε) = c² E(ε) -/
+theorem khachaturyan_eig (c11 c12 c44 ε I1 I2 r0 r1 r2 c : α) :
+    khachaturyan c11 c12 c44 (c * ε) I1 I2 r0 r1 r2 = c ^ 2 * khachaturyan c11 c12 c44 ε I1 I2 r0 r1 r2 := by
+  simp only [khachaturyan, npow]; ring
+
+theorem constant_energy_eq (e0 r0 r1 r2 : α) : constant_energy e0 r0 r1 r2 = vol r0 r1 r2 * e0 := by
+  simp only [constant_energy, vol]
+
+end khachaturyan
+
+/-! ## the Eshelby energy: size and eigenstrain scaling, homogeneous inclusion -/
+section eshelby
+variable {α : Type} [Field α] [Trans α]
+
+def smul3 (s : α) (r : V3 α) : V3 α := fun i => s * r i
+def smul2 (c : α) (t : T2 α) : T2 α := fun i j => c * t i j
+
+theorem lsum_map_mul {β : Type} (c : α) (f : β → α) (l : List β) :
+    lsum (l.map fun q => c * f q) = c * lsum (l.map f) := by
+  induction l with
+  | nil => simp [lsum]
+  | cons x xs ih => simp only [List.map_cons, lsum, ih]; ring
+
+theorem prod3_smul (s : α) (r : V3 α) : prod3 (smul3 s r) = s ^ 3 * prod3 r := by
+  simp only [prod3, smul3]; ring
+
+theorem volume_smul (s : α) (r : V3 α) : volume (smul3 s r) = s ^ 3 * volume r := by
+  simp only [volume, prod3_smul]; ring
+
+/-- the radii enter `sphInt` only through 1/β³: scaling all radii by s divides it by s³ -/
+theorem sphInt_smul (ohm : V3 α → T2 α) (beta : V3 α → V3 α → α) (nodes : List (QNode α)) (dA s : α)
+    (r : V3 α) (hβ : ∀ n, beta (smul3 s r) n = s * beta r n) (i j k l : Fin 3) :
+    sphInt ohm beta nodes dA (smul3 s r) i j k l = (1 / s ^ 3) * sphInt ohm beta nodes dA r i j k l := by
+  simp only [sphInt]
+  have : (fun q : QNode α => ohm q.n i j * (q.n k * q.n l * (1 / npow (beta (smul3 s r) q.n) 3 * q.w))) =
+      fun q => (1 / s ^ 3) * (ohm q.n i j * (q.n k * q.n l * (1 / npow (beta r q.n) 3 * q.w))) := by
+    funext q; rw [hβ]; simp only [npow]; ring
+  rw [this, lsum_map_mul]; ring
+
+/-- `Dijkl` (hence the Eshelby tensor) does not depend on the size: prod(r) ∝ s³ cancels 1/β³ ∝ s⁻³ -/
+theorem Dijkl_smul (ohm : V3 α → T2 α) (beta : V3 α → V3 α → α) (nodes : List (QNode α)) (dA s : α)
+    (r : V3 α) (hs : s ≠ 0) (hβ : ∀ n, beta (smul3 s r) n = s * beta r n) :
+    Dijkl ohm beta nodes dA (smul3 s r) = Dijkl ohm beta nodes dA r := by
+  funext i j k l
+  simp only [Dijkl, sphInt_smul ohm beta nodes dA s r hβ, prod3_smul]
+  field_simp
+
+theorem strainEnergy_V (a b : T2 α) (c V : α) : strainEnergy a b (c * V) = c * strainEnergy a b V := by
+  simp only [strainEnergy]; ring
+
+/-- **size scaling**, homogeneous inclusion formula: E(s·r) = s³ E(r) -/
+theorem ellipsoid_size_scaling (ohm : V3 α → T2 α) (beta : V3 α → V3 α → α) (nodes : List (QNode α))
+    (dA s : α) (r : V3 α) (cM : T4 α) (eig : T2 α) (hs : s ≠ 0)
+    (hβ : ∀ n, beta (smul3 s r) n = s * beta r n) :
+    energyEllipsoid cM (Sijmn cM (Dijkl ohm beta nodes dA (smul3 s r))) eig (volume (smul3 s r)) =
+      s ^ 3 * energyEllipsoid cM (Sijmn cM (Dijkl ohm beta nodes dA r)) eig (volume r) := by
+  rw [Dijkl_smul ohm beta nodes dA s r hs hβ, volume_smul]
+  simp only [energyEllipsoid, strainEnergy_V]
+
+/-- **size scaling**, inhomogeneous (Bohm) formula -/
+theorem bohm_size_scaling (ev : Eval α) (inv4 : T4 α → T4 α) (ohm : V3 α → T2 α)
+    (beta : V3 α → V3 α → α) (nodes : List (QNode α))
+    (dA s : α) (r : V3 α) (cM cP : T4 α) (eig : T2 α) (hs : s ≠ 0)
+    (hβ : ∀ n, beta (smul3 s r) n = s * beta r n) :
+    energyBohm ev inv4 cM cP (Sijmn cM (Dijkl ohm beta nodes dA (smul3 s r))) eig (volume (smul3 s r)) =
+      s ^ 3 * energyBohm ev inv4 cM cP (Sijmn cM (Dijkl ohm beta nodes dA r)) eig (volume r) := by
+  rw [Dijkl_smul ohm beta nodes dA s r hs hβ, volume_smul]
+  simp only [energyBohm, strainEnergy_V]
+
+/-! linearity of the contractions -/
+theorem mult42_smul (a : T4 α) (c : α) (b : T2 α) : mult42 a (smul2 c b) = smul2 c (mult42 a b) := by
+  funext i j; simp only [mult42, smul2, sum3]; ring
+
+theorem mult42_sub (a : T4 α) (x y : T2 α) : mult42 a (sub2 x y) = sub2 (mult42 a x) (mult42 a y) := by
+  funext i j; simp only [mult42, sub2, sum3]; ring
+
+theorem sub2_smul (c : α) (x y : T2 α) : sub2 (smul2 c x) (smul2 c y) = smul2 c (sub2 x y) := by
+  funext i j; simp only [sub2, smul2]; ring
+
+theorem strainEnergy_smul (c : α) (x y : T2 α) (V : α) :
+    strainEnergy (smul2 c x) (smul2 c y) V = c ^ 2 * strainEnergy x y V := by
+  simp only [strainEnergy, dot22, smul2, sum3]; ring
+
+theorem mult42_assoc (a b : T4 α) (e : T2 α) : mult42 (mult44 a b) e = mult42 a (mult42 b e) := by
+  funext i j; simp only [mult42, mult44, sum3]; ring
+
+/-- **eigenstrain scaling**: E(c·ε) = c² E(ε) -/
+theorem ellipsoid_eig_scaling (cM S : T4 α) (eig : T2 α) (V c : α) :
+    energyEllipsoid cM S (smul2 c eig) V = c ^ 2 * energyEllipsoid cM S eig V := by
+  simp only [energyEllipsoid, mult42_smul, sub2_smul, strainEnergy_smul]
+
+theorem bohm_eig_scaling (ev : Eval α) (hev : ev.Lawful) (inv4 : T4 α → T4 α) (cM cP S : T4 α)
+    (eig : T2 α) (V c : α) :
+    energyBohm ev inv4 cM cP S (smul2 c eig) V = c ^ 2 * energyBohm ev inv4 cM cP S eig V := by
+  obtain ⟨h2, h4, _⟩ := hev
+  simp only [energyBohm, h2, h4, mult42_smul, sub2_smul, strainEnergy_smul]
+
+/-- **homogeneous inclusion**: with cP = cM the Bohm energy is the ellipsoid energy, provided the
+4th-rank inversion is an inverse on the eigenstrain: (inv4 cM : cM) : ε = ε.
+(`invert4_left_inverse` below: the repaired `invert4rankTensor` has this property for every symmetric
+ε; the unweighted one did not, `invert4Old_not_inverse`.) -/
+theorem bohm_homogeneous (ev : Eval α) (hev : ev.Lawful) (inv4 : T4 α → T4 α) (cM S : T4 α)
+    (eig : T2 α) (V : α) (hinv : mult42 (mult44 (inv4 cM) cM) eig = eig) :
+    energyBohm ev inv4 cM cM S eig V = energyEllipsoid cM S eig V := by
+  obtain ⟨h2, h4, _⟩ := hev
+  have hT : add4 (mult44 (sub4 cM cM) S) cM = cM := by
+    funext i j k l; simp [add4, mult44, sub4, sum3]
+  simp only [energyBohm, energyEllipsoid, h2, h4, hT, mult42_assoc, hinv, mult42_sub]
+
+end eshelby
+
+/-! ## the repaired `invert4rankTensor` is the inverse on tensors with the minor symmetries -/
+section invert4
+variable {α : Type} [Field α]
+
+theorem pairWeight_0 : (pairWeight 0 : α) = 1 := by simp [pairWeight]
+theorem pairWeight_1 : (pairWeight 1 : α) = 1 := by simp [pairWeight]
+theorem pairWeight_2 : (pairWeight 2 : α) = 1 := by simp [pairWeight]
+theorem pairWeight_3 : (pairWeight 3 : α) = 2 := by simp [pairWeight]
+theorem pairWeight_4 : (pairWeight 4 : α) = 2 := by simp [pairWeight]
+theorem pairWeight_5 : (pairWeight 5 : α) = 2 := by simp [pairWeight]
+
+/-- double contraction of two tensors given by 6x6 arrays: the three shear pairs count twice -/
+theorem mult44_voigt (A C : M6 α) (i j k l : Fin 3) :
+    mult44 (convert2To4 A) (convert2To4 C) i j k l =
+      sum6 fun K => pairWeight K * A (voigt i j) K * C K (voigt k l) := by
+  simp only [mult44, convert2To4, sum3, sum6, voigt00, voigt11, voigt22, voigt12, voigt21, voigt02,
+    voigt20, voigt01, voigt10, pairWeight_0, pairWeight_1, pairWeight_2, pairWeight_3, pairWeight_4,
+    pairWeight_5]
+  ring
+
+/-- the symmetric 4th-rank identity ½(δ_ik δ_jl + δ_il δ_jk), written with the 6-index -/
+def isym : T4 α := fun i j k l => if voigt i j = voigt k l then 1 / pairWeight (voigt i j) else 0
+
+/-- **invert4rankTensor (repaired)**: if `inv6` returns a left inverse of the weighted 6x6 array and
+m_I² is the pair weight (m = `_mandelVec`), then invert4(c) : c is the symmetric identity for every
+c with the minor symmetries -/
+theorem invert4_left_inverse (inv6 : M6 α → Box6 α) (m : V6 α) (c4 : T4 α) (hc : MinorSym c4)
+    (hm : ∀ I, m I * m I = pairWeight I) (hm0 : ∀ I, m I ≠ 0)
+    (hinv : ∀ I J, sum6 (fun K => (inv6 fun I J => convert4To2 c4 I J * (m I * m J)).f I K *
+        (convert4To2 c4 K J * (m K * m J))) = if I = J then 1 else 0) :
+    mult44 (invert4 inv6 m c4) c4 = isym := by
+  funext i j k l
+  have hrt : c4 = convert2To4 (convert4To2 c4) := (convert2To4_convert4To2 c4 hc).symm
+  conv_lhs => rw [hrt]
+  simp only [invert4, convert4To2_convert2To4, isym]
+  rw [mult44_voigt]
+  generalize voigt i j = I
+  generalize voigt k l = J
+  generalize convert4To2 c4 = C at hinv ⊢
+  generalize (inv6 fun I J => C I J * (m I * m J)).f = x at hinv ⊢
+  have hI := hm0 I; have hJ := hm0 J
+  have h0 := hm0 0; have h1 := hm0 1; have h2 := hm0 2; have h3 := hm0 3; have h4 := hm0 4; have h5 := hm0 5
+  have key : (m I * m J) * (sum6 fun K => pairWeight K * (x I K / (m I * m K)) * C K J) =
+      if I = J then 1 else 0 := by
+    rw [← hinv I J]
+    simp only [sum6, ← hm]
+    field_simp
+  by_cases hIJ : I = J
+  · subst hIJ
+    simp only [if_true] at key ⊢
+    rw [← hm I, eq_div_iff (mul_ne_zero hI hI), mul_comm]
+    exact key
+  · simp only [hIJ, if_false] at key ⊢
+    have := mul_eq_zero.mp key
+    rcases this with h | h
+    · exact absurd h (mul_ne_zero hI hJ)
+    · exact h
+
+/-- consequently (invert4 c : c) : ε = ε for every symmetric ε — the hypothesis of `bohm_homogeneous` -/
+theorem isym_apply (e : T2 α) (he : ∀ i j, e i j = e j i) [CharZero α] : mult42 isym e = e := by
+  have h10 := he 1 0; have h20 := he 2 0; have h21 := he 2 1
+  funext i j
+  fin_cases i <;> fin_cases j <;>
+    simp [mult42, isym, sum3, pairWeight, h10, h20, h21] <;> ring
+
+/-- **before the repair** convert2To4(inv6(convert4To2 c)) : c was diag(1,1,1,2,2,2) in the 6-index,
+not the identity: for the unit tensor c = convert2To4(1) the entry 0101 is 2 instead of ½ -/
+theorem invert4Old_not_inverse :
+    ∃ (inv6 : M6 ℚ → Box6 ℚ) (c4 : T4 ℚ), MinorSym c4 ∧
+      (∀ I J, sum6 (fun K => (inv6 (convert4To2 c4)).f I K * convert4To2 c4 K J) = if I = J then 1 else 0) ∧
+      mult44 (invert4Old inv6 c4) c4 0 1 0 1 = 2 ∧ (isym : T4 ℚ) 0 1 0 1 = 1 / 2 := by
+  refine ⟨fun c => ⟨c⟩, convert2To4 (fun I J => if I = J then 1 else 0), convert2To4_minorSym _, ?_, ?_, ?_⟩
+  · intro I J
+    simp only [convert4To2_convert2To4, sum6]
+    fin_cases I <;> fin_cases J <;> simp
+  · simp only [invert4Old, convert4To2_convert2To4, mult44_voigt, sum6, voigt01]
+    simp [pairWeight]
+  · simp [isym, pairWeight]
+
+end invert4
+
+/-! ## the setters: the final parameters depend on the final rotation / stiffness / stress only -/
+section machine
+variable {α : Type} [Field α] [LinearOrder α] [IsStrictOrderedRing α] [Trans α]
+
+/-- the parameters are what `update()` computes from the current rotations, unrotated tensors and
+applied stress — whenever a matrix tensor is set -/
+def Coherent (ev : Eval α) (inv6 : M6 α → Box6 α) (s : State α) : Prop :=
+  any4 s.cM = true → s.p = paramsOf ev inv6 s.rot s.rotP s.cM s.cP s.stress0
+
+theorem update_coherent (ev : Eval α) (inv6 : M6 α → Box6 α) (s : State α) :
+    Coherent ev inv6 (update ev inv6 s) := by
+  unfold Coherent update
+  split
+  · intro _; rfl
+  · next h => intro h'; exact absurd h' h
+
+theorem updateIfSet_coherent (ev : Eval α) (inv6 : M6 α → Box6 α) (s : State α) :
+    Coherent ev inv6 (updateIfSet ev inv6 s) := by
+  unfold updateIfSet
+  split
+  · exact update_coherent ev inv6 s
+  · next h => intro h'; exact absurd h' h
+
+/-- every setter keeps the invariant (the tensor, rotation and stress setters establish it) -/
+theorem step_coherent (ev : Eval α) (inv6 : M6 α → Box6 α) (s : State α) (op : Op α)
+    (h : Coherent ev inv6 s) : Coherent ev inv6 (step ev inv6 s op).1 := by
+  cases op with
+  | setShape d => exact h
+  | setConstantEnergy e => exact h
+  | setElasticTensor6 c => exact update_coherent ev inv6 _
+  | setElasticTensor4 c => exact update_coherent ev inv6 _
+  | setElasticConstants a b c => exact update_coherent ev inv6 _
+  | setModuli E nu G lam K M =>
+    simp only [step]; split
+    · exact update_coherent ev inv6 _
+    · exact h
+  | setPrecTensor6 c => exact updateIfSet_coherent ev inv6 _
+  | setPrecTensor4 c => exact updateIfSet_coherent ev inv6 _
+  | setPrecConstants a b c => exact updateIfSet_coherent ev inv6 _
+  | setPrecModuli E nu G lam K M =>
+    simp only [step]; split
+    · exact updateIfSet_coherent ev inv6 _
+    · exact h
+  | setRotation r => exact updateIfSet_coherent ev inv6 _
+  | setRotationPrec r => exact updateIfSet_coherent ev inv6 _
+  | setEigScalar e => exact h
+  | setEigVec e => exact h
+  | setEigMat e => exact h
+  | setStressScalar x => exact updateIfSet_coherent ev inv6 _
+  | setStressVec v => exact updateIfSet_coherent ev inv6 _
+  | setStressMat m => exact updateIfSet_coherent ev inv6 _
+
+theorem any4_zero4 : any4 (zero4 : T4 α) = false := by
+  simp [any4, zero4, nz]
+
+theorem init_coherent (ev : Eval α) (inv6 : M6 α → Box6 α) (d : Desc) :
+    Coherent ev inv6 (init d : State α) := by
+  intro h
+  simp only [init] at h
+  rw [any4_zero4] at h
+  exact absurd h (by simp)
+
+theorem run_coherent (ev : Eval α) (inv6 : M6 α → Box6 α) (ops : List (Op α)) (s : State α)
+    (h : Coherent ev inv6 s) : Coherent ev inv6 (run ev inv6 s ops) := by
+  induction ops generalizing s with
+  | nil => exact h
+  | cons op ops ih => exact ih _ (step_coherent ev inv6 s op h)
+
+/-- **order of rotation and stiffness**: two setter sequences (any initial shapes, any lengths, any
+order, anything supplied any number of times) that end with the same rotations, unrotated tensors
+and applied stress end with the same parameters (hence the same energy for the same description
+and eigenstrain). -/
+theorem final_params_depend_on_final_fields (ev : Eval α) (inv6 : M6 α → Box6 α)
+    (d1 d2 : Desc) (ops1 ops2 : List (Op α))
+    (hM : (run ev inv6 (init d1) ops1).cM = (run ev inv6 (init d2) ops2).cM)
+    (hP : (run ev inv6 (init d1) ops1).cP = (run ev inv6 (init d2) ops2).cP)
+    (hR : (run ev inv6 (init d1) ops1).rot = (run ev inv6 (init d2) ops2).rot)
+    (hRP : (run ev inv6 (init d1) ops1).rotP = (run ev inv6 (init d2) ops2).rotP)
+    (hS : (run ev inv6 (init d1) ops1).stress0 = (run ev inv6 (init d2) ops2).stress0)
+    (hset : any4 (run ev inv6 (init d1) ops1).cM = true) :
+    (run ev inv6 (init d1) ops1).p = (run ev inv6 (init d2) ops2).p := by
+  have c1 := run_coherent ev inv6 ops1 _ (init_coherent ev inv6 d1) hset
+  have c2 := run_coherent ev inv6 ops2 _ (init_coherent ev inv6 d2) (hM ▸ hset)
+  rw [c1, c2, hM, hP, hR, hRP, hS]
+
+/-- in particular a rotation supplied after the stiffness is used: the parameters after
+`setRotationMatrix r` are those of the rotation r -/
+theorem rotation_after_stiffness (ev : Eval α) (inv6 : M6 α → Box6 α) (s : State α) (r : T2 α)
+    (h : any4 s.cM = true) :
+    (step ev inv6 s (.setRotation r)).1.p = paramsOf ev inv6 r s.rotP s.cM s.cP s.stress0 := by
+  simp only [step, updateIfSet, update, h, if_true]
+
+/-- `update()` twice = `update()` once (the applied stress is rotated from the stress as supplied) -/
+theorem update_idempotent (ev : Eval α) (inv6 : M6 α → Box6 α) (s : State α) :
+    (update ev inv6 (update ev inv6 s)).p = (update ev inv6 s).p := by
+  unfold update
+  by_cases h : any4 s.cM = true <;> simp [h]
+
+/-! before the repair 187e553 the clause was false -/
+
+/-- `setRotationMatrix` did not touch the parameters … -/
+theorem old_setRotation_ignored (s : State α) (r : T2 α) : (setRotationOld s r).p = s.p := rfl
+
+/-- … although they depend on the rotation (witness: a 90° rotation about z of a tensor with
+C_0000 = 1, C_1111 = 2), so [stiffness, rotation] and [rotation, stiffness] disagreed -/
+theorem rotation_matters :
+    ∃ (r : T2 ℚ) (t : T4 ℚ), MinorSym t ∧ rotate4 r t 0 0 0 0 ≠ rotate4 one3 t 0 0 0 0 := by
+  refine ⟨fun i j => if i = 0 ∧ j = 1 then -1 else if i = 1 ∧ j = 0 then 1 else if i = 2 ∧ j = 2 then 1 else 0,
+    convert2To4 (fun I J => if I = 0 ∧ J = 0 then 1 else if I = 1 ∧ J = 1 then 2 else 0),
+    convert2To4_minorSym _, ?_⟩
+  simp only [rotate4_formula, sum3, convert2To4, one3, voigt00, voigt11, voigt22, voigt12, voigt21, voigt02,
+    voigt20, voigt01, voigt10]
+  norm_num [Fin.ext_iff]
+
+/-- … and `update()` rotated the already rotated applied stress again: a second `update()` changed it -/
+theorem old_update_rerotates (ev : Eval α) (hev : ev.Lawful) (inv6 : M6 α → Box6 α) (s : State α)
+    (h : any4 s.cM = true) :
+    (updateOld ev inv6 (updateOld ev inv6 s)).p.stress = rotate2 s.rot (rotate2 s.rot s.p.stress) := by
+  have h' : any4 (updateOld ev inv6 s).cM = true := by simp [updateOld, h]
+  simp only [updateOld, h, if_true]
+
+theorem rotate2_twice_differs :
+    ∃ (r t : T2 ℚ), rotate2 r (rotate2 r t) 0 0 ≠ rotate2 r t 0 0 := by
+  refine ⟨fun i j => if i = 0 ∧ j = 1 then -1 else if i = 1 ∧ j = 0 then 1 else if i = 2 ∧ j = 2 then 1 else 0,
+    fun i j => if i = 0 ∧ j = 0 then 1 else 0, ?_⟩
+  simp only [rotate2_formula, sum3]
+  norm_num [Fin.ext_iff]
+
+end machine
+
+/-! ## `_beta`: the distance is homogeneous of degree one in the radii -/
+section beta
+variable {α : Type} [Field α] [LinearOrder α] [IsStrictOrderedRing α] [Trans α]
+
+def vec3 (a b c : α) : V3 α := fun i => if i = 0 then a else if i = 1 then b else c
+
+/-- the traced `_beta(a,b,c,φ,θ)` is sqrt((a n₀)² + (b n₁)² + (c n₂)²) with n = `_n(φ,θ)` -/
+theorem beta_eq_betaN (a b c φ θ : α) :
+    beta a b c φ θ = betaN (vec3 a b c) (vec3 (nvec_0 φ θ) (nvec_1 φ θ) (nvec_2 φ θ)) := by
+  simp only [beta, betaN, vec3, nvec_0, nvec_1, nvec_2, npow]
+  congr 1
+  simp
+  ring
+
+theorem betaN_smul (hsq : ∀ s x : α, 0 ≤ s → Trans.sqrt (s * s * x) = s * Trans.sqrt x)
+    (s : α) (hs : 0 ≤ s) (r n : V3 α) : betaN (smul3 s r) n = s * betaN r n := by
+  simp only [betaN, smul3, npow]
+  rw [← hsq s _ hs]
+  congr 1
+  ring
+
+/-- size scaling with the code's own distance function -/
+theorem ellipsoid_size_scaling_beta (hsq : ∀ s x : α, 0 ≤ s → Trans.sqrt (s * s * x) = s * Trans.sqrt x)
+    (ohm : V3 α → T2 α) (nodes : List (QNode α)) (dA s : α) (r : V3 α) (cM : T4 α) (eig : T2 α)
+    (hs : 0 < s) :
+    energyEllipsoid cM (Sijmn cM (Dijkl ohm betaN nodes dA (smul3 s r))) eig (volume (smul3 s r)) =
+      s ^ 3 * energyEllipsoid cM (Sijmn cM (Dijkl ohm betaN nodes dA r)) eig (volume r) :=
+  ellipsoid_size_scaling ohm betaN nodes dA s r cM eig hs.ne' (fun n => betaN_smul hsq s hs.le r n)
+
+theorem bohm_size_scaling_beta (hsq : ∀ s x : α, 0 ≤ s → Trans.sqrt (s * s * x) = s * Trans.sqrt x)
+    (ev : Eval α) (inv4 : T4 α → T4 α) (ohm : V3 α → T2 α) (nodes : List (QNode α)) (dA s : α)
+    (r : V3 α) (cM cP : T4 α) (eig : T2 α) (hs : 0 < s) :
+    energyBohm ev inv4 cM cP (Sijmn cM (Dijkl ohm betaN nodes dA (smul3 s r))) eig (volume (smul3 s r)) =
+      s ^ 3 * energyBohm ev inv4 cM cP (Sijmn cM (Dijkl ohm betaN nodes dA r)) eig (volume r) :=
+  bohm_size_scaling ev inv4 ohm betaN nodes dA s r cM cP eig hs.ne' (fun n => betaN_smul hsq s hs.le r n)
+
+end beta
+
+/-! ## real numbers: the laws of sqrt used above hold -/
+section real
+open Real
+
+/-- interpretation of the atoms over ℝ -/
+@[instance_reducible] noncomputable def realTrans : Trans ℝ where
+  pi := Real.pi
+  sqrt := Real.sqrt
+  cbrt := fun x => if 0 ≤ x then x ^ ((1 : ℝ) / 3) else -((-x) ^ ((1 : ℝ) / 3))
+  exp := Real.exp
+  log := Real.log
+  sin := Real.sin
+  cos := Real.cos
+  tan := Real.tan
+  arcsin := Real.arcsin
+  arccos := Real.arccos
+  arctan := Real.arctan
+  tanh := Real.tanh
+  arctanh := fun x => Real.log ((1 + x) / (1 - x)) / 2
+  arccosh := fun x => Real.log (x + Real.sqrt (x ^ 2 - 1))
+  pow := fun x y => x ^ y
+  abs := fun x => |x|
+
+attribute [local instance] realTrans
+
+theorem real_sqrt_sq (x : ℝ) (hx : 0 ≤ x) : Trans.sqrt (x * x) = x := Real.sqrt_mul_self hx
+
+theorem real_sqrt_scale (s x : ℝ) (hs : 0 ≤ s) : Trans.sqrt (s * s * x) = s * Trans.sqrt x := by
+  show Real.sqrt (s * s * x) = s * Real.sqrt x
+  rw [Real.sqrt_mul (mul_self_nonneg s), Real.sqrt_mul_self hs]
+
+/-- `_mandelVec`² = `_pairWeights` over ℝ, and no entry vanishes (hypotheses of `invert4_left_inverse`) -/
+theorem real_mandel (I : Fin 6) : (mandelVec I : ℝ) * mandelVec I = pairWeight I ∧ (mandelVec I : ℝ) ≠ 0 := by
+  have hw : (0 : ℝ) < pairWeight I := by unfold pairWeight; split <;> norm_num
+  constructor
+  · exact Real.mul_self_sqrt hw.le
+  · exact (Real.sqrt_pos.mpr hw).ne'
+
+/-- over ℝ: both square-root branches of moduliToC, for every physical isotropic material -/
+theorem real_moduli_E_lam (E ν : ℝ) (hE : 0 < E) (h1 : -1 < ν) (h2 : ν < 1 / 2) :
+    IsCompliance E ν (moduli_E_lam_s11 E (lamOf E ν)) (moduli_E_lam_s12 E (lamOf E ν))
+      (moduli_E_lam_s44 E (lamOf E ν)) :=
+  moduli_E_lam_spec real_sqrt_sq hE (by linarith) (by linarith)
+
+theorem real_moduli_E_M (E ν : ℝ) (hE : 0 < E) (h1 : 0 ≤ ν) (h2 : ν < 1 / 2) :
+    IsCompliance E ν (moduli_E_M_s11 E (mOf E ν)) (moduli_E_M_s12 E (mOf E ν))
+      (moduli_E_M_s44 E (mOf E ν)) :=
+  moduli_E_M_spec real_sqrt_sq hE h1 (by linarith)
+
+/-- over ℝ: E(s·r) = s³ E(r) for every s > 0 with the code's distance function -/
+theorem real_bohm_size_scaling (ev : Eval ℝ) (inv4 : T4 ℝ → T4 ℝ) (ohm : V3 ℝ → T2 ℝ)
+    (nodes : List (QNode ℝ)) (dA s : ℝ) (r : V3 ℝ) (cM cP : T4 ℝ) (eig : T2 ℝ) (hs : 0 < s) :
+    energyBohm ev inv4 cM cP (Sijmn cM (Dijkl ohm betaN nodes dA (smul3 s r))) eig (volume (smul3 s r)) =
+      s ^ 3 * energyBohm ev inv4 cM cP (Sijmn cM (Dijkl ohm betaN nodes dA r)) eig (volume r) :=
+  bohm_size_scaling_beta real_sqrt_scale ev inv4 ohm nodes dA s r cM cP eig hs
+
+end real
+
+/-! ## non-vacuity: the hypothesis sets are inhabited -/
+section nonvacuity
+
+example : (200 : ℚ) ≠ 0 ∧ (1 : ℚ) + 3 / 10 ≠ 0 ∧ (1 : ℚ) - 2 * (3 / 10) ≠ 0 ∧ (1 : ℚ) - 3 / 10 ≠ 0 := by norm_num
+example : (0 : ℚ) < 200 ∧ (0 : ℚ) ≤ 3 / 10 ∧ (0 : ℚ) < 1 - 2 * (3 / 10) := by norm_num
+example : gOf (200 : ℚ) (3 / 10) = 1000 / 13 := by norm_num [gOf]
+example : det3 (fun i j => if i = j then (2 : ℚ) else 1) ≠ 0 := by norm_num [det3, Fin.ext_iff]
+example : MinorSym (convert2To4 (elasticConstantToC (3 : ℚ) 1 1)) := convert2To4_minorSym _
+example : (Eval.id : Eval ℚ).Lawful := ⟨fun _ => rfl, fun _ => rfl, fun _ => rfl⟩
+/-- a state with the matrix tensor set exists (so `final_params_depend_on_final_fields` is not vacuous) -/
+example : any4 (convert2To4 (elasticConstantToC (3 : ℚ) 1 1)) = true := by decide
+
+end nonvacuity
 
 end KawinV.Props.C16
